@@ -119,15 +119,15 @@ class Builtins:
 
     def compare(self, op, a: Value, b: Value, node, fr) -> Value:
         I = self.I
-        label = ast.unparse(node) if node is not None else ""
+        label = self.I.up(node) if node is not None else ""
         if isinstance(op, (ast.Eq, ast.NotEq)):
             r = I.try_equals(a, b)
             if r is None:
                 sym = a if isinstance(a, (Unknown, SymBool)) else b
                 if isinstance(a, Unknown) or isinstance(b, Unknown):
-                    r2 = I.equals(a, b, label if isinstance(op, ast.Eq) else ast.unparse(node).replace("!=", "=="))
+                    r2 = I.equals(a, b, label if isinstance(op, ast.Eq) else self.I.up(node).replace("!=", "=="))
                 else:
-                    r2 = I.equals(a, b, label if isinstance(op, ast.Eq) else ast.unparse(node).replace("!=", "=="))
+                    r2 = I.equals(a, b, label if isinstance(op, ast.Eq) else self.I.up(node).replace("!=", "=="))
                 r = r2
             return I.lift(r if isinstance(op, ast.Eq) else not r)
         if isinstance(op, (ast.Is, ast.IsNot)):
@@ -164,7 +164,7 @@ class Builtins:
 
     def contains(self, container: Value, item: Value, node, fr) -> bool:
         I = self.I
-        label = ast.unparse(node) if node is not None else "in"
+        label = self.I.up(node) if node is not None else "in"
         if isinstance(container, ListV) and container.absorbed is not None:
             container = container.absorbed
         if isinstance(container, (ListV, TupleV, SetV)):
@@ -395,7 +395,7 @@ class Builtins:
                 I.assign(g.target, elem, fr)
                 filters = list(flags.get("filters", []))
                 for cond in g.ifs:
-                    filters.append(ast.unparse(cond))
+                    filters.append(self.I.up(cond))
                     # evaluate the filter only for its effects on path assumptions: keep the element
                 flags["filters"] = filters
                 if not filters:
@@ -409,7 +409,7 @@ class Builtins:
             out: List[Value] = []
             for _, x, _ in self.iterate(it, node, fr):
                 I.assign(g.target, x, fr)
-                if all(I.truth(I.eval(c, fr), ast.unparse(c)) for c in g.ifs):
+                if all(I.truth(I.eval(c, fr), self.I.up(c)) for c in g.ifs):
                     out.append(I.eval(elt, fr))
             return ListV(out)
         finally:
@@ -492,7 +492,7 @@ class Builtins:
             return any(self.type_test(subj, n, label) for n in names)
         if isinstance(pat, ast.MatchValue):
             v = I.eval(pat.value, fr)
-            return I.equals(subj, v, f"{label} == {ast.unparse(pat.value)}")
+            return I.equals(subj, v, f"{label} == {self.I.up(pat.value)}")
         if isinstance(pat, ast.MatchSingleton):
             return I.equals(subj, I.lift(pat.value), f"{label} is {pat.value}")
         raise I.unsupported(f"pattern {type(pat).__name__}", pat, fr)
@@ -854,7 +854,7 @@ class Builtins:
             return v
         if isinstance(v, Unknown) and "truthy" not in v.meta:
             return SymBool(v.tag, False, {"of": v})
-        return I.lift(I.truth(v, ast.unparse(node)))
+        return I.lift(I.truth(v, self.I.up(node)))
 
     def x_len(self, args, kwargs, node, fr) -> Value:
         I = self.I
@@ -927,7 +927,7 @@ class Builtins:
 
     def x_isinstance(self, args, kwargs, node, fr) -> Value:
         names = self.type_names(args[1], node, fr)
-        label = ast.unparse(node) if node is not None else "isinstance"
+        label = self.I.up(node) if node is not None else "isinstance"
         return self.I.lift(any(self.type_test(args[0], n, label) for n in names))
 
     def x_issubclass(self, args, kwargs, node, fr) -> Value:
@@ -1000,6 +1000,15 @@ class Builtins:
         v = args[0]
         if isinstance(v, ListV) and v.absorbed is not None:
             v = v.absorbed
+        key = kwargs.get("key")
+        rev = kwargs.get("reverse")
+        if isinstance(v, (ListV, TupleV, SetV)) and key is not None and key is not NONE:
+            keys = [self.I.call_value(key, [x], {}, node, fr) for x in v.items]
+            if all(self.I.is_concrete(k) for k in keys):
+                order = sorted(range(len(keys)), key=lambda i: self.I.py(keys[i]),
+                               reverse=bool(rev is not None and self.I.truth(rev)))
+                return ListV([v.items[i] for i in order])
+            return AbsList(Unknown(self.I.run.new_tag("sorted_elem")), "sorted(...)", {"order": "sorted", "of": v})
         if isinstance(v, AbsList):
             return v.with_flags(order="sorted")
         if isinstance(v, (ListV, TupleV, SetV)) and all(self.I.is_concrete(x) for x in v.items):
